@@ -18,7 +18,9 @@ def hx(s):
 
 # ---- independent statement-level oracle (written from the property text, not from the model)
 def spec_parse(v):
-    m = re.match(r"^v?(\d+)(?:\.(\d+))?(?:\.(\d+))?", v)
+    # a version is [v]MAJOR[.MINOR[.PATCH]], optionally a '-'/'+' suffix of letters, digits, '.', '-', '+', optionally
+    # trailing white space - the whole string, not a prefix of it ("37b3341", "2.x", "1.2.3.4" are not versions)
+    m = re.match(r"^v?([0-9]+)(?:\.([0-9]+))?(?:\.([0-9]+))?(?:[-+][0-9A-Za-z.+-]*)?[ \t\n\r\f\v]*\Z", v)
     if not m:
         return None
     t = tuple(int(x) if x is not None else 0 for x in m.groups())
@@ -51,12 +53,48 @@ def spec_checksum_ok(content, asset, res):
         return res == "none"
     return res == "some " + hx(exp)
 
+def spec_verdict_ok(content, asset, actual, res):
+    """an archive goes on to installation only when the digest listed for exactly that asset name is the archive's"""
+    listed = None
+    if content is not None:
+        for line in content.split("\n"):
+            f = line.split()
+            if len(f) >= 2 and (f[1] == asset or f[1] == "*" + asset):
+                listed = f[0]; break
+    if res.startswith("EXC") or res == "CRASH":
+        return False
+    good = listed is not None and listed.lower() == actual
+    return (res == "Verified") == good
+
+def gen_verdicts(rng, checks):
+    out = []
+    for content, asset in checks:
+        listed = None
+        for line in content.split("\n"):
+            f = line.split()
+            if len(f) >= 2 and (f[1] == asset or f[1] == "*" + asset):
+                listed = f[0]; break
+        wrong = "".join(rng.choice("0123456789abcdef") for _ in range(64))
+        r = rng.random()
+        if r < 0.1:
+            out.append((None, asset, listed or wrong))                       # checksums.txt could not be downloaded
+        elif listed and r < 0.45:
+            out.append((content, asset, listed))                               # intact download
+        elif listed and r < 0.65:
+            out.append((content.replace(listed, listed.upper()), asset, listed))   # digest listed in upper case
+        elif listed and r < 0.75:
+            out.append((content, asset, listed[:-1] + ("0" if listed[-1] != "0" else "1")))
+        else:
+            out.append((content, asset, wrong))
+    return out
+
 def gen_versions(rng, n_random):
     comps = ["0", "1", "2", "3", "9", "10", "11", "99", "100", "007", "00", "2147483647", "2147483648",
              "4294967296", "99999999999", "18446744073709551616"]
     sufs = ["", "-rc1", "+build5", "x", " ", ".x", "..", ".", "-modified", "-3-gabc123"]
     garbage = ["", "v", "nightly", "latest", "v.", ".1", "-1", "1e3", " 1.2", "unknown", "vv1.2.3", "V1.2.3", "1..2", "1.x",
-               "v1", "1", "1.2", "1.2.3.4", "14f7c2c", "v2.0.0", "2.0.0", "1.10.0", "1.9.0", "1.2.10", "1.2.9"]
+               "v1", "1", "1.2", "1.2.3.4", "14f7c2c", "37b3341", "2024-nightly", "7zip", "2.x", "2..1", "v9.9.9$(touch x)", "1.2.3\r", "1.2.3 \t",
+               "1.2.3-rc1 x", "1.2.3 x", "1.2.", "1.2.3.", "1.2.3-", "1.2.3+", "1.2.3-rc.1+build-7", "1.2.3_4", "1.2.3/4", "3.1-4", "v1.0.2-14-g37b3341", "v2.0.0", "2.0.0", "1.10.0", "1.9.0", "1.2.10", "1.2.9"]
     out = list(garbage)
     small = ["0", "1", "2", "9", "10"]
     for a in small:
@@ -121,8 +159,15 @@ def gen_seqs(rng, n):
         for _ in range(rng.randint(1, 8)):
             t += rng.choice([0, 1, 60, H, 24 * H, 71 * H, 72 * H - 1, 72 * H, 72 * H + 1, 100 * H, -5])
             f = rng.choice(vers[:-1] + ["!"])
-            invs.append("%d %d %s %s" % (t, 1 if rng.random() < 0.12 else 0, hx(cur), "!" if f == "!" else hx(f)))
+            r = rng.random()
+            mode = 1 if r < 0.12 else (2 if r < 0.24 else (3 if r < 0.30 else 0))   # 1 disabled by environment, 2/3 cache cannot be written
+            invs.append("%d %d %s %s" % (t, mode, hx(cur), "!" if f == "!" else hx(f)))
         cases.append("seq %s %s" % (disk, " ".join(invs)))
+    # a cache that holds a newer release and cannot be rewritten, three runs within seconds (then writable again)
+    t = 1700000000
+    for mode in (2, 3):
+        cases.insert(0, "seq %d:%s:0 " % (t, hx("v2.0.0")) + " ".join("%d %d %s %s" % (t + k, m, hx("1.0.0"), hx("v2.0.0"))
+                                                                   for k, m in enumerate([mode, mode, mode, 0, 0])))
     return cases
 
 def spec_seq_ok(case, out):
@@ -182,8 +227,11 @@ def run(chk):
     pairs = list(dict.fromkeys(pairs))
     for a, b in pairs:
         cases.append(("action", "action %s %s" % (hx(a), hx(b)), (a, b)))
-    for content, asset in gen_checksums(rng, 400 if quick else 6000):
+    checks = gen_checksums(rng, 400 if quick else 6000)
+    for content, asset in checks:
         cases.append(("checksum", "checksum %s %s" % (hx(content), hx(asset)), (content, asset)))
+    for content, asset, actual in gen_verdicts(rng, checks):
+        cases.append(("verdict", "verdict %s %s %s" % ("!" if content is None else hx(content), hx(asset), hx(actual)), (content, asset, actual)))
     for s in gen_seqs(rng, 400 if quick else 6000):
         cases.append(("seq", s, (s,)))
     tmp = os.path.join(vlib.BUILD, "tmp", "c20-%d" % os.getpid())
@@ -215,12 +263,14 @@ def run(chk):
             spec_ok = spec_action_ok(args[0], args[1], c)
         elif kind == "checksum":
             spec_ok = spec_checksum_ok(args[0], args[1], c)
+        elif kind == "verdict":
+            spec_ok = spec_verdict_ok(args[0], args[1], args[2], c)
         elif kind == "seq":
             spec_ok = spec_seq_ok(args[0], c)
         elif kind == "semver":
             spec_ok = not c.startswith("EXC") and c != "CRASH"
-        if i < 3 or (kind in ("checksum", "seq") and kinds[kind] <= 1):
-            chk.sample({"case": line if len(line) < 300 else line[:300] + "...", "decoded": [a[:120] for a in args], "model": m, "impl": c})
+        if i < 3 or (kind in ("checksum", "verdict", "seq") and kinds[kind] <= 1):
+            chk.sample({"case": line if len(line) < 300 else line[:300] + "...", "decoded": [(a[:120] if a is not None else None) for a in args], "model": m, "impl": c})
         if kind == "seq":
             c_full, c = c, c.partition(" ||")[0]
         else:
@@ -248,6 +298,8 @@ def run(chk):
         "case_kinds": kinds, "distinct_version_strings": len(vers), "version_pairs": len(pairs),
         "rule": "structured version strings (v-prefix, 1-4 components incl. INT_MAX+-1 and 11/20-digit runs, suffixes, garbage); "
                 "all pairs of a 60-string core plus random pairs; generated checksums.txt (reordered, similarly named assets, "
-                "malformed/reversed lines); invocation histories over a scratch cache with stubbed clock and lookup",
+                "malformed/reversed lines); verification verdicts for those files with the listed digest (lower / upper case), a wrong one, a one-digit "
+                "difference, and no checksums.txt; invocation histories over a scratch cache with stubbed clock and lookup, a tenth of the invocations "
+                "disabled by environment and a fifth with a cache that cannot be written",
     })
     chk.assumptions += ["the release lookup returns an arbitrary tag (stubbed)", "cache file is writable; time in whole seconds"]
